@@ -102,6 +102,23 @@ DerefCases ==
         Case("index-left", <<Set("c", MutE(WInt, I(0))), Set("arr", ArrE(<<I(10), I(20)>>)), FnDecl("bump", <<>>, WInt, <<Mark(2), Asg("=", V("c"), I(1)), Ret(I(2))>>)>>,
              Bin("-", At(V("arr"), Deref(V("c"))), CallE(V("bump"), <<>>)), WInt, <<2>>)}
 
+\* the arguments of a call are evaluated whatever the callee does with them (an empty body, a constant result, a hook that is
+\* switched off), and an effectful operand next to an absorbing LITERAL (0 * e, e & 0, e ** 0 ..) is still evaluated
+Seven == FnDecl("seven", <<P("x", WInt)>>, WInt, <<Ret(I(7))>>)
+Noop2 == FnDecl("noop", <<P("x", WInt), P("y", WInt)>>, WVoid, <<>>)
+Hook == FnDecl("trace", <<P("x", WInt)>>, WVoid, <<If1(V("verbose"), Block(<<Mark(9)>>))>>)
+ConstCalleeCases ==
+  {Case("call-constant-body", <<Seven>>, CallE(V("seven"), <<T(1, 5)>>), WInt, <<1>>),
+   Case("call-constant-body-twice", <<Seven>>, Bin("+", CallE(V("seven"), <<T(1, 5)>>), CallE(V("seven"), <<T(2, 6)>>)), WInt, <<1, 2>>),
+   Case("call-empty-body", <<Noop2>>, TupE(<<CallE(V("noop"), <<T(1, 5), T(2, 6)>>), T(3, 1)>>), WTup(<<WVoid, WInt>>), <<1, 2, 3>>),
+   Case("call-switched-off-hook", <<Set("verbose", B(FALSE)), Hook>>, TupE(<<CallE(V("trace"), <<T(1, 5)>>), T(2, 1)>>), WTup(<<WVoid, WInt>>), <<1, 2>>),
+   Case("call-switched-on-hook", <<Set("verbose", B(TRUE)), Hook>>, TupE(<<CallE(V("trace"), <<T(1, 5)>>), T(2, 1)>>), WTup(<<WVoid, WInt>>), <<1, 9, 2>>)}
+  \cup {Case("absorb-lit-r" \o p[1] \o ToString(p[2]), <<>>, Bin(p[1], T(1, 5), L(p[2])), WInt, <<1>>)
+          : p \in {q \in {"*", "&", "**", "|", "%", "<<", ">>", "-", "+"} \X {0, 1, -1} : ~(q[1] \in {"%", "**", "<<", ">>"} /\ q[2] \in {0, -1}) \/ (q[1] = "**" /\ q[2] = 0) \/ (q[1] \in {"<<", ">>"} /\ q[2] = 0)}}
+  \cup {Case("absorb-lit-l" \o p[1] \o ToString(p[2]), <<>>, Bin(p[1], L(p[2]), T(1, 5)), WInt, <<1>>)
+          : p \in {q \in {"*", "&", "**", "|", "%", "/", "<<", ">>", "-"} \X {0, 1, -1} : ~(q[1] \in {"<<", ">>"} /\ q[2] = -1)}}
+  \cup {Case("absorb-lit-asg" \o op, <<Set("c", MutE(WInt, I(10)))>>, TupE(<<Bin(op, Asg("+=", V("c"), I(1)), L(0)), Deref(V("c"))>>), WTup(<<WInt, WInt>>), <<>>) : op \in {"*", "&"}}
+
 BoolAsgCases ==
   \* a bool cell that already holds the deciding value excuses nothing: &= |= ^= evaluate their value operand, once
   {Case("asg-bool" \o op \o ToString(c) \o ToString(v), <<Set("c", MutE(WBool, B(c)))>>, Asg(op, Tick(1, WMut(WBool), V("c")), TB(2, v)), WBool, <<1, 2>>)
@@ -225,7 +242,7 @@ CtlProg(c, ctx) ==
 Contexts == {"top", "fn"}
 AllCases ==
   {[id |-> c.name \o "/" \o ctx, suite |-> "c07", prog |-> ExprProg(c, ctx), must |-> c.must]
-      : c \in BinCases \cup LogicCases \cup DataCases \cup AsgCases \cup ZeroCases \cup LitIterCases \cup RepCases \cup BoolAsgCases \cup DerefCases, ctx \in Contexts}
+      : c \in BinCases \cup LogicCases \cup DataCases \cup AsgCases \cup ZeroCases \cup LitIterCases \cup RepCases \cup BoolAsgCases \cup DerefCases \cup ConstCalleeCases, ctx \in Contexts}
   \cup {[id |-> c.name \o "/" \o ctx, suite |-> "c07", prog |-> CtlProg(c, ctx), must |-> c.must]
       : c \in CtlCases, ctx \in Contexts}
 
